@@ -176,6 +176,8 @@ func c07CallerSets(typ, field string) (string, bool) {
 }
 
 func runC07(c *an.Ctx) {
+	// the ECS cache stores the response before any per-client adjustment (shared with C04-R5)
+	ecsStoreOrder(c, "C07-R4")
 	c.Inf("C07-R6", "shared-configuration sweep", token.NoPos, "%d stores into shared server-group / profile data found on the request path (each is reported)",
 		sharedConfigImmutable(c, "C07-R6", "dnssvc", "filter/", "ecscache.", "dnsmsg."))
 	c04ClonerPools(c, "C07-R1")
